@@ -133,6 +133,8 @@ should_fail(void)
 	}
 	return (0);
 fail:
+	if (R != NULL)
+		R->af_fired = 1;
 	simalloc_failed++;
 	simalloc_failed_in_step++;
 	if (sim_verbose)
